@@ -332,6 +332,12 @@ class Ctx:
         if k == "Unary":
             op = n["op"]
             if op == "!":
+                # !(a || b) is !a && !b, !(a && b) is !a || !b (short-circuit order kept)
+                inner = strip(n["e"])
+                if inner.get("k") == "Binary" and inner.get("op") in ("||", "&&") and not inner.get("m"):
+                    def _neg(x_):
+                        return {"k": "Unary", "op": "!", "e": x_, "ty": "bool", "sp": x_.get("sp"), "id": None}
+                    return ("op", "&&" if inner["op"] == "||" else "||", self._term(_neg(inner["l"]), subst), self._term(_neg(inner["r"]), subst))
                 # !(a == b) is a != b for every type; !(a < b) is a >= b only for totally ordered (integer) operands
                 inner = strip(n["e"])
                 if inner.get("k") == "Binary" and not inner.get("m"):
